@@ -5,4 +5,6 @@ package drc
 // Contracts for the deductive checker in /verif (comment-only file).
 
 //vc:func Main
+//vc:  requires[C12] !lockHeld && !lockClosed
+//vc:  ensures[C12] @lockKeptUntilExit lockHeld ==> lockClosed
 //vc:  assert[C11] at "device.ApproveOrCompare(" @compareFlagSelectsPath flagName(isCompare) == "compare" && arg0 == deref(isCompare)
